@@ -28,13 +28,23 @@ KNOBS = {'n_min': 2, 'n_max': 4,
          'behaviours': ['normal'], 'fence': 'false', 'n_rounds': [1, 2, 3]}
 
 
+# a second family: applications with wait_exit programs (they exit as expected a few seconds after RUNNING), three
+# sequence levels, loads that matter
+WAIT_KNOBS = {'n_min': 2, 'n_max': 4,
+              'apps': {'n_apps': (1, 2), 'n_progs': (2, 4), 'seq_max': 3, 'startsecs': (0, 2), 'managed_p': 1.0,
+                       'autorestart': ('false',), 'loads': (5, 45), 'allow_wait_exit': True, 'wait_exit_p': 0.45},
+              'behaviours': ['normal'], 'wait_exit_behaviours': ['exit_expected'], 'same_behaviour_everywhere': True,
+              'fence': 'false', 'n_rounds': [1, 2]}
+
+
 def plan(tier, seed):
-    return [{'seed': seed * 1000003 + i} for i in range(COUNT[tier])]
+    return [{'seed': seed * 1000003 + i} for i in range(COUNT[tier])] + \
+        [{'seed': seed * 1000003 + 700000 + i, 'family': 'wait-exit'} for i in range(COUNT[tier] // 2)]
 
 
 def run_case(case):
     tracker = Tracker()
-    run = Run(case, KNOBS, [tracker])
+    run = Run(case, WAIT_KNOBS if case.get('family') == 'wait-exit' else KNOBS, [tracker])
     violations = run.execute()
     nontrivial = run.counters.get('process_predictions_compared', 0) > 0
     return {'violations': violations, 'counters': run.counters,
